@@ -45,7 +45,7 @@ def parse_races(prefix):
             sites = []
             for part in re.split(r"\n(?=Previous |Goroutine )", block):
                 if part.lstrip().startswith(("WARNING: DATA RACE", "Read at", "Write at", "Previous ")):
-                    m = re.search(r"\n\s+(" + re.escape(LIB) + r"\S+)\(", part)
+                    m = re.search(r"\n\s+(" + re.escape(LIB) + r"[^\n]*?)\(\)\n", part)
                     if m:
                         sites.append(m.group(1).replace(LIB, ""))
             if len(sites) >= 1:
